@@ -381,6 +381,18 @@ where
         vec.update_pointers()?;
         vec.validate_header()?;
 
+        // The header must not vouch for more bytes than the file holds: a file that was cut
+        // short (or whose header was persisted before the file was extended) would otherwise
+        // be read past its end.
+        let file_len = std::fs::metadata(&vec.file_path)
+            .map_err(|e| ZiporaError::io_error(&format!("Failed to get file size: {}", e)))?
+            .len();
+        let claimed = (vec.capacity() as u128) * (std::mem::size_of::<T>() as u128)
+            + HEADER_SIZE as u128;
+        if claimed > file_len as u128 {
+            return Err(ZiporaError::invalid_data("File is shorter than its header claims"));
+        }
+
         Ok(vec)
     }
 
